@@ -265,7 +265,7 @@ def run(ctx):
                                   "source": text, "env": world, "why": why,
                                   "inproc_stdout": a["stdout"].decode(errors="replace")[:2000], "isolated_stdout": b["stdout"].decode(errors="replace")[:2000]}, indent=1))
             ctx.violation("program %s (builtin %s, %s argument class): %s" % (name, builtin, klass, why), rep)
-    cov["programs"] = {"programs": len(progs), "compared": same + diff_known + diff_bad, "identical": same, "explained_by_known_finding": diff_known,
+    cov["program_replay"] = {"programs": len(progs), "compared": same + diff_known + diff_bad, "identical": same, "explained_by_known_finding": diff_known,
                        "violations": diff_bad, "not_compiled": uncompiled, "no_extern_call": noextern, "builtins_covered": sorted(builtins_seen),
                        "argument_sizes": argsizes, "sizes_failing_in_as_is_model": sorted(too_big), "samples": samples,
                        "model": {"states_healthy": rp0.distinct, "invariant": "HealthySame for every argument size"}}
